@@ -245,4 +245,15 @@ theorem C01_wiring2 :
     Sso.Generated.skel_proxy_SignOut =
       ["call:ClearSession", "if{", "if{", "}", "else{", "}", "}", "call:GetSignOutURL", "call:String", "call:Redirect"] := by decide
 
+/-- Tie (T1): `cmd/sso-proxy/main.go`: load the configuration from the environment, validate it, `proxy.New`, wrap in the logging handler, serve — the sequence the harness reproduces when it builds the service in-process (configuration validated before
+anything is served; the handler wrapping). -/
+theorem C01_skeleton_cmd_proxy_main : Sso.Generated.skel_cmd_proxy_main =
+    ["call:LoadConfig", "if{", "call:Exit", "}", "call:Validate", "if{", "call:Exit", "}", "call:NewStatsdClient", "if{", "call:Exit", "}", "go{", "call:New", "call:Run", "}", "call:SetUpstreamConfigs", "if{", "call:Exit", "}", "call:New", "if{", "call:Exit", "}", "call:NewLoggingHandler", "call:Sprintf", "call:Run", "if{", "}"] := by decide
+
+/-- Tie (T1), third wave: the constructors and option functions that hand configured values to the components this property
+speaks about (proxy_SetCookieStore). -/
+theorem C01_wiring3 :
+    Sso.Generated.skel_proxy_SetCookieStore =
+      ["func{", "call:DecodeString", "if{", "return", "}", "call:CreateMiscreantCookieCipher", "func{", "store:c.CookieDomain", "store:c.CookieHTTPOnly", "store:c.CookieExpire", "store:c.CookieSecure", "return", "}", "call:NewCookieStore", "if{", "return", "}", "store:op.csrfStore", "store:op.sessionStore", "store:op.cookieCipher", "return", "}", "return"] := by decide
+
 end Sso.Proxy
